@@ -198,3 +198,62 @@ def gen_ops(rng, backend, n, keys, allow_bad=True, mut_share=0.6):
         else:
             ops.append(['retrieve_all', rng.choice([1, 1, 2, 3, 50, len(keys), 0, -1])])
     return ops
+
+
+# ---------------------------------------------------------------------------------------------
+# C07: all configurations a decision can be made over
+# ---------------------------------------------------------------------------------------------
+CONFIGS = ['memory', 'sqlite', 'sqlite_regexp', 'redis_pickle', 'redis_json', 'mongo40', 'mongo42',
+           'enfold_sqlite', 'enfold_mongo42', 'observable_memory', 'observable_sqlite']
+
+
+def make_config(name):
+    """-> Handle whose .storage is the object a Guard is built on; .extra['direct'] the underlying backend"""
+    if name in ('memory', 'sqlite', 'redis_pickle', 'redis_json'):
+        h = make_backend(name)
+        h.extra['direct'] = h.storage
+        return h
+    if name == 'sqlite_regexp':
+        # "SQL storage with a regex-capable dialect": SQLite with a REGEXP function backed by Python re.search,
+        # the storage told its dialect is mysql.  Exercises vakt's query construction and the stored *_regex
+        # columns, not MySQL's regex engine.
+        import re
+        from sqlalchemy import event
+        h = make_sqlite()
+
+        @event.listens_for(h.extra['engine'], 'connect')
+        def _reg(dbapi_con, _rec):
+            dbapi_con.create_function('REGEXP', 2, lambda pattern, value: value is not None and pattern is not None
+                                      and re.search(pattern, value) is not None)
+        h.extra['engine'].dispose()
+        h.storage.dialect = 'mysql'
+        h.extra['direct'] = h.storage
+        return h
+    if name in ('mongo40', 'mongo42'):
+        h = make_backend('mongo', '4.0.9' if name == 'mongo40' else '4.2.1')
+        h.extra['direct'] = h.storage
+        return h
+    if name.startswith('enfold_'):
+        from vakt.cache import EnfoldCache
+        from vakt.storage.memory import MemoryStorage
+        inner = make_config(name[len('enfold_'):])
+        inner.extra['direct'] = inner.storage
+        inner.extra['enfold_pending'] = True
+        inner.storage_factory = lambda: EnfoldCache(inner.extra['direct'], MemoryStorage(), populate=True)
+        return inner
+    if name.startswith('observable_'):
+        from vakt.storage.observable import ObservableMutationStorage
+        inner = make_config(name[len('observable_'):])
+        inner.extra['direct'] = inner.storage
+        inner.storage = ObservableMutationStorage(inner.storage)
+        return inner
+    raise ValueError(name)
+
+
+def load_policies(h, pols):
+    """store policies in the underlying backend, then finish wrappers that populate at construction"""
+    for p in pols:
+        h.extra['direct'].add(p)
+    if h.extra.get('enfold_pending'):
+        h.storage = h.storage_factory()
+        h.extra['enfold_pending'] = False
